@@ -760,3 +760,265 @@ Proof.
   - assert (Hf : rc_success (rc_unit (@Err unit e)) = false) by (destruct e as [[]| |]; reflexivity).
     rewrite Hf. split; [discriminate|]. split; [|reflexivity]. intros _. apply Hko. discriminate.
 Qed.
+
+(* ------------------------------------------------------------------ E. steps, histories, the checker *)
+Fixpoint sum_len (ops : list op13) : N :=
+  match ops with [] => 0 | o :: t => nlen (op_buf o) + sum_len t end.
+Definition op_wf (k : skind) (o : op13) : Prop :=
+  op_allowed k o = true /\ buf_ok (op_buf o) /\ match o with OSetPos p => p < W64 | _ => True end.
+(* what has to hold of a stream state for the arithmetic of the adapters not to overflow
+   (budget = total length of the buffers still to be written), and the shape of a byte queue *)
+Definition st_inv (k : skind) (content : list N) (st : sstate) (budget : N) : Prop :=
+  match k with
+  | KVecW => nlen (s_data st) + budget < W64
+  | KCurR | KCurW => cur_ok st
+  | KQueue => exists j, s_data st = ndrop j content /\ s_pos st = 0
+  | _ => True
+  end.
+
+Lemma agree_state o vm sd st' m rc : Agree o vm sd -> vm = Val ((st', m), rc) ->
+  exists ost bs, sd = Val (ost, bs, rc) /\ (rc_success rc = true -> ost = Some st').
+Proof.
+  intros (s1 & b1 & rc1 & ost & bs & Hv & Hs & _ & Hok & _) E. rewrite Hv in E. inversion E; subst.
+  exists ost, bs. split; [reflexivity|]. intros H. apply Hok in H. tauto.
+Qed.
+
+Lemma cursor_write_inv md : forall s m v s' m' r, cur_ok s -> cursor_write_volatile md s m v = Val ((s', m'), r) -> cur_ok s'.
+Proof.
+  intros s m v s' m' r Hc H. rewrite (cursor_write_val md s m v Hc) in H. inversion H; subst.
+  destruct Hc as [Hp Hd]. unfold cur_ok. cbn [s_pos s_data].
+  set (total := N.min (vs_len v) (nlen (s_data s) - cur_start s)).
+  assert (Hbs : nlen (mem_read m' (vs_off v) total) <= total) by (unfold mem_read; rewrite nlen_ntake; lia).
+  rewrite mem_write_length by (unfold total, cur_start in *; lia).
+  unfold total, cur_start in *. split; lia.
+Qed.
+Definition queue_inv (content : list N) (st : sstate) : Prop := exists j, s_data st = ndrop j content /\ s_pos st = 0.
+Lemma queue_read_inv content : forall s m v s' m' r, queue_inv content s ->
+  read_volatile_raw_fd queue_read s m v = Val ((s', m'), r) -> queue_inv content s'.
+Proof.
+  intros s m v s' m' r (j & Hd & Hp) H. unfold read_volatile_raw_fd, queue_read in H. inversion H; subst.
+  unfold queue_inv. cbn [s_data s_pos]. exists (j + vs_len v). rewrite Hd, ndrop_ndrop. auto.
+Qed.
+Lemma queue_write_inv content : forall s m v s' m' r, queue_inv content s ->
+  write_volatile_raw_fd queue_write s m v = Val ((s', m'), r) -> queue_inv content s'.
+Proof.
+  intros s m v s' m' r (j & Hd & Hp) H. unfold write_volatile_raw_fd, queue_write in H. inversion H; subst.
+  unfold queue_inv. cbn [s_data s_pos]. eauto.
+Qed.
+
+Lemma lift_n_val {S} (x : outcome ((S * list N) * res N)) s m rc :
+  lift_n x = Val ((s, m), rc) -> exists r, x = Val ((s, m), r).
+Proof. destruct x as [[[s1 m1] r]| |]; cbn; intros H; inversion H; subst; eauto. Qed.
+Lemma lift_u_val {S} (x : outcome ((S * list N) * res unit)) s m rc :
+  lift_u x = Val ((s, m), rc) -> exists r, x = Val ((s, m), r).
+Proof. destruct x as [[[s1 m1] r]| |]; cbn; intros H; inversion H; subst; eauto. Qed.
+
+Lemma step_inv md k content st o budget : op_wf k o -> st_inv k content st (nlen (op_buf o) + budget) ->
+  forall st' m rc, vm_step md k st o = Val ((st', m), rc) -> st_inv k content (clear_out st') budget.
+Proof.
+  intros (Hal & Hb & Hp) Hi st' m rc H.
+  destruct k; cbn [st_inv] in *; try exact I.
+  - (* Vec *)
+    destruct o; cbn [op_allowed] in Hal; try discriminate.
+    + pose proof (agree_vec_write md st d) as Ha. cbn [op_buf] in Hi.
+      destruct (agree_state _ _ _ _ _ _ (Ha ltac:(lia)) H) as (ost & bs & Hs & Hok).
+      unfold std_step, std_vec_write in Hs. inversion Hs; subst. specialize (Hok eq_refl). inversion Hok; subst.
+      unfold clear_out, with_data. cbn [s_data]. rewrite nlen_app. lia.
+    + pose proof (agree_vec_write_all md st d) as Ha. cbn [op_buf] in Hi, Hb.
+      destruct (agree_state _ _ _ _ _ _ (Ha ltac:(lia) Hb) H) as (ost & bs & Hs & Hok).
+      unfold std_step, std_vec_write in Hs. inversion Hs; subst. specialize (Hok eq_refl). inversion Hok; subst.
+      unfold clear_out, with_data. cbn [s_data]. rewrite nlen_app. lia.
+    + cbn [vm_step seekable] in H. inversion H; subst. cbn [op_buf nlen length N.of_nat] in Hi.
+      unfold clear_out. cbn [s_data]. lia.
+  - (* Cursor reader *)
+    destruct o; cbn [op_allowed] in Hal; try discriminate.
+    + unfold vm_step in H. apply lift_n_val in H. destruct H as (r & H). cbn [op_buf] in H.
+      rewrite (cursor_read_val md st _ _ Hi) in H. inversion H; subst.
+      destruct Hi as [A B]. unfold cur_ok, clear_out, set_pos. cbn [s_pos s_data].
+      pose proof (nlen_ndrop (cur_start st) (s_data st)). unfold cur_start in *. split; lia.
+    + unfold vm_step in H. apply lift_u_val in H. destruct H as (r & H). cbn [op_buf] in H.
+      rewrite (cursor_read_exact_val md st _ _ Hi) in H.
+      destruct Hi as [A B]. pose proof (nlen_ndrop (cur_start st) (s_data st)) as Hn.
+      destruct (N.ltb_spec (nlen (ndrop (cur_start st) (s_data st))) (vs_len (win pre))); inversion H; subst;
+        unfold cur_ok, clear_out, set_pos; cbn [s_pos s_data win vs_len] in *; unfold cur_start in *; split; lia.
+    + cbn [vm_step seekable] in H. inversion H; subst. destruct Hi as [A B].
+      unfold cur_ok, clear_out, set_pos. cbn [s_pos s_data]. split; assumption.
+  - (* Cursor writer *)
+    assert (Hco : forall s, cur_ok s -> cur_ok (clear_out s)) by (intros s [A B]; split; assumption).
+    destruct o; cbn [op_allowed] in Hal; try discriminate.
+    + unfold vm_step in H. apply lift_n_val in H. destruct H as (r & H).
+      apply Hco. eapply cursor_write_inv; eassumption.
+    + unfold vm_step in H. apply lift_u_val in H. destruct H as (r & H).
+      apply Hco. unfold write_all_volatile in H.
+      eapply (exact_volatile_inv cur_ok); [apply cursor_write_inv|exact Hi|exact H].
+    + cbn [vm_step seekable] in H. inversion H; subst. destruct Hi as [A B].
+      unfold cur_ok, clear_out, set_pos. cbn [s_pos s_data]. split; assumption.
+  - (* byte queue *)
+    fold (queue_inv content st) in Hi. fold (queue_inv content (clear_out st')).
+    assert (Hco : forall s, queue_inv content s -> queue_inv content (clear_out s)) by (intros s A; exact A).
+    apply Hco.
+    destruct o; cbn [op_allowed] in Hal; try discriminate.
+    + unfold vm_step in H. apply lift_n_val in H. destruct H as (r & H).
+      eapply queue_read_inv; eassumption.
+    + unfold vm_step in H. apply lift_u_val in H. destruct H as (r & H). unfold read_exact_volatile in H.
+      eapply (exact_volatile_inv (queue_inv content)); [apply queue_read_inv|exact Hi|exact H].
+    + unfold vm_step in H. apply lift_n_val in H. destruct H as (r & H).
+      eapply queue_write_inv; eassumption.
+    + unfold vm_step in H. apply lift_u_val in H. destruct H as (r & H). unfold write_all_volatile in H.
+      eapply (exact_volatile_inv (queue_inv content)); [apply queue_write_inv|exact Hi|exact H].
+    + cbn [vm_step seekable] in H. inversion H; subst. exact Hi.
+Qed.
+
+Lemma step_agree md k content st o budget : op_wf k o -> st_inv k content st (nlen (op_buf o) + budget) ->
+  Agree o (vm_step md k st o) (std_step k st o).
+Proof.
+  intros (Hal & Hb & Hp) Hi.
+  destruct o as [pre|pre|d|d|p].
+  - destruct k; cbn [op_allowed] in Hal; try discriminate.
+    + apply agree_slice_read. + apply agree_cursor_read. exact Hi.
+    + apply agree_fd_read. reflexivity. + apply agree_fd_read. reflexivity.
+  - destruct k; cbn [op_allowed] in Hal; try discriminate.
+    + apply agree_slice_read_exact. + apply agree_cursor_read_exact. exact Hi.
+    + apply agree_fd_read_exact; [reflexivity|exact Hb]. + apply agree_fd_read_exact; [reflexivity|exact Hb].
+  - destruct k; cbn [op_allowed] in Hal; try discriminate.
+    + apply agree_mslice_write. + apply agree_vec_write. cbn [st_inv op_buf] in Hi. lia.
+    + apply agree_cursor_write. exact Hi.
+    + apply agree_fd_write. reflexivity. + apply agree_fd_write. reflexivity.
+  - destruct k; cbn [op_allowed] in Hal; try discriminate.
+    + apply agree_mslice_write_all. + apply agree_vec_write_all; [cbn [st_inv op_buf] in Hi; lia|exact Hb].
+    + apply agree_cursor_write_all; [exact Hi|exact Hb].
+    + apply agree_fd_write_all; [reflexivity|exact Hb]. + apply agree_fd_write_all; [reflexivity|exact Hb].
+  - unfold vm_step, std_step. cbn [op_buf].
+    eexists _, [], _, _, _. split; [reflexivity|]. split; [reflexivity|]. cbn [op_buf is_read].
+    split; [reflexivity|]. split; [|split; [discriminate|reflexivity]].
+    intros _. split; [reflexivity|]. split; [cbn; lia|discriminate].
+Qed.
+
+Lemma suffix_recon (c : list N) j : ndrop (nlen c - nlen (ndrop j c)) c = ndrop j c.
+Proof.
+  rewrite nlen_ndrop. destruct (N.le_ge_cases j (nlen c)) as [H|H].
+  - f_equal. lia.
+  - rewrite (ndrop_all j) by lia. apply ndrop_all. lia.
+Qed.
+Lemma state_of_obs_show k content st b : st_inv k content st b ->
+  state_of_obs k content (fst (show_state k st)) (snd (show_state k st)) = clear_out st.
+Proof.
+  intros Hi. destruct k; try reflexivity. cbn [st_inv] in Hi. destruct Hi as (j & Hd & Hp).
+  unfold state_of_obs, show_state, clear_out. cbn [fst snd]. rewrite Hd, suffix_recon, Hp. reflexivity.
+Qed.
+Lemma state_matches_show k st : state_matches k st (fst (show_state k st)) (snd (show_state k st)) = true.
+Proof.
+  destruct k; cbn [state_matches show_state fst snd]; rewrite ?N.eqb_refl, ?andb_true_r;
+    try apply list_eqb_eq; reflexivity.
+Qed.
+Lemma bs_h0 (p : sstate * res N) (ost : option sstate) (bs : list N) (rc : N * N) :
+  (let '(st', r) := p in Val (Some st', @nil N, rc_n r)) = Val (ost, bs, rc) -> bs = [].
+Proof. destruct p. intros H. inversion H. reflexivity. Qed.
+Lemma bs_h1 (p : option sstate * res unit) (ost : option sstate) (bs : list N) (rc : N * N) :
+  (let '(o', r) := p in Val (o', @nil N, rc_unit r)) = Val (ost, bs, rc) -> bs = [].
+Proof. destruct p. intros H. inversion H. reflexivity. Qed.
+Lemma bs_h2 (p : sstate * res N) (ost : option sstate) (bs : list N) (rc : N * N) :
+  (let '(st', _) := p in Val (Some st', @nil N, (1, 0))) = Val (ost, bs, rc) -> bs = [].
+Proof. destruct p. intros H. inversion H. reflexivity. Qed.
+Lemma bs_h3 (x : outcome (option sstate * res unit)) (ost : option sstate) (bs : list N) (rc : N * N) :
+  (let* y := x in let '(o', r) := y in Val (o', @nil N, rc_unit r)) = Val (ost, bs, rc) -> bs = [].
+Proof. destruct x as [[o' r]| |]; cbn [bind]; intros H; inversion H. reflexivity. Qed.
+Lemma std_step_write_bs k st o ost bs rc : is_read o = false -> std_step k st o = Val (ost, bs, rc) -> bs = [].
+Proof.
+  intros Hr H. destruct o; try discriminate; unfold std_step in H.
+  - destruct k; lazy beta iota in H;
+      repeat match type of H with
+             | (match ?X with (_, _) => _ end) = _ => destruct X
+             end; inversion H; reflexivity.
+  - destruct k; lazy beta iota in H;
+      repeat match type of H with
+             | (match ?X with (_, _) => _ end) = _ => destruct X
+             | (bind ?X _) = _ => destruct X as [[? ?]| |]; cbn [bind] in H; try discriminate
+             end; inversion H; reflexivity.
+  - inversion H. reflexivity.
+Qed.
+Lemma list_eqb_refl13 l : list_eqb l l = true.
+Proof. apply list_eqb_eq. reflexivity. Qed.
+Lemma clear_out_idem st : clear_out (clear_out st) = clear_out st.
+Proof. reflexivity. Qed.
+
+Lemma st_inv_unclear k c s b : st_inv k c (clear_out s) b -> st_inv k c s b.
+Proof. destruct k; intros H; exact H. Qed.
+
+Lemma run_steps_ok md k content : forall ops st tw, Forall (op_wf k) ops ->
+  st_inv k content (clear_out st) (sum_len ops) ->
+  ok_steps k content (clear_out st) ops (run_ops md k st tw ops) = true.
+Proof.
+  induction ops as [|o ops IH]; intros st tw Hwf Hi; [reflexivity|].
+  inversion Hwf as [|? ? Ho Hops]; subst. cbn [sum_len] in Hi.
+  pose proof (step_agree md k content (clear_out st) o (sum_len ops) Ho Hi) as Ha.
+  pose proof (step_inv md k content (clear_out st) o (sum_len ops) Ho Hi) as Hinv.
+  destruct Ha as (st' & b' & rc & ost & bs & Hv & Hs & Hl & Hok & Hko & Hwr).
+  specialize (Hinv _ _ _ Hv).
+  cbn [run_ops]. rewrite Hv.
+  destruct Ho as (Hal & Hb & Hp).
+  assert (Hstep : forall trc tbuf tdata tpos tout,
+    ok_step k content (clear_out st) o
+      {| a_rc := rc; a_buf := b'; a_margins := margins_ok (op_buf o) (arena b');
+         a_data := fst (show_state k st'); a_pos := snd (show_state k st'); a_out := s_out st';
+         t_rc := trc; t_buf := tbuf; t_data := tdata; t_pos := tpos; t_out := tout |} = true).
+  { intros. unfold ok_step. cbn [a_margins a_buf a_rc a_data a_pos a_out].
+    rewrite (margins_ok_arena _ _ Hl), Hl, N.eqb_refl, Hs. cbn [andb].
+    unfold rc_eqb. rewrite !N.eqb_refl. cbn [andb].
+    destruct (rc_success rc) eqn:Esucc; [|reflexivity].
+    destruct (Hok eq_refl) as (-> & Hbs & Hrd).
+    rewrite state_matches_show, list_eqb_refl13. cbn [andb]. rewrite andb_true_r.
+    destruct (is_read o) eqn:Er.
+    - rewrite (Hrd eq_refl), ntake_app_exact. apply list_eqb_refl13.
+    - rewrite (std_step_write_bs _ _ _ _ _ _ Er Hs). reflexivity. }
+  assert (Hrest : forall tw', ok_steps k content
+            (state_of_obs k content (fst (show_state k st')) (snd (show_state k st'))) ops
+            (run_ops md k st' tw' ops) = true).
+  { intros tw'. rewrite (state_of_obs_show _ _ _ _ (st_inv_unclear _ _ _ _ Hinv)). apply IH; [exact Hops|exact Hinv]. }
+  assert (Hbuf : mem_read (arena b') margin (nlen (op_buf o)) = b') by (rewrite <- Hl; apply arena_read_all).
+  destruct tw as [t|]; [destruct (std_step k (clear_out t) o) as [[[[t'|] bs2] rc2]| |]|];
+    lazy beta iota zeta; cbn [ok_steps]; rewrite Hal, Hbuf; cbn [andb a_data a_pos];
+    rewrite Hstep, Hrest; reflexivity.
+Qed.
+
+Lemma run_twin_ok md k content : forall ops st t, clear_out t = clear_out st -> Forall (op_wf k) ops ->
+  st_inv k content (clear_out st) (sum_len ops) ->
+  ok_twin ops (run_ops md k st (Some t) ops) = true.
+Proof.
+  induction ops as [|o ops IH]; intros st t Ht Hwf Hi; [reflexivity|].
+  inversion Hwf as [|? ? Ho Hops]; subst. cbn [sum_len] in Hi.
+  pose proof (step_agree md k content (clear_out st) o (sum_len ops) Ho Hi) as Ha.
+  pose proof (step_inv md k content (clear_out st) o (sum_len ops) Ho Hi) as Hinv.
+  destruct Ha as (st' & b' & rc & ost & bs & Hv & Hs & Hl & Hok & Hko & Hwr).
+  specialize (Hinv _ _ _ Hv).
+  assert (Hbuf : mem_read (arena b') margin (nlen (op_buf o)) = b') by (rewrite <- Hl; apply arena_read_all).
+  cbn [run_ops]. rewrite Hv, Ht, Hs.
+  destruct (rc_success rc) eqn:Esucc.
+  - destruct (Hok eq_refl) as (-> & Hbs & Hrd). lazy beta iota zeta. rewrite Hbuf.
+    cbn [ok_twin a_rc t_rc a_buf t_buf a_data t_data a_pos t_pos a_out t_out].
+    unfold rc_eqb. rewrite !N.eqb_refl, Esucc. cbn [andb].
+    rewrite !list_eqb_refl13. rewrite (IH st' st' eq_refl Hops Hinv). rewrite !andb_true_r.
+    destruct (is_read o) eqn:Er; [|reflexivity]. rewrite (Hrd eq_refl). apply list_eqb_refl13.
+  - rewrite (Hko eq_refl). lazy beta iota zeta. cbn [ok_twin a_rc t_rc]. unfold rc_eqb.
+    rewrite !N.eqb_refl, Esucc. reflexivity.
+Qed.
+
+Definition wf13 (c : case13) : Prop :=
+  s_out (c_init c) = [] /\ Forall (op_wf (c_kind c)) (c_ops c)
+  /\ match c_kind c with
+     | KVecW => nlen (s_data (c_init c)) + sum_len (c_ops c) < W64
+     | KCurR | KCurW => cur_ok (c_init c)
+     | KQueue => s_pos (c_init c) = 0
+     | _ => True
+     end.
+
+Lemma C13_model_ok_lemma : forall c, wf13 c -> ok_C13 c (run_C13 c) = true.
+Proof.
+  intros c (Hout & Hops & Hk). unfold ok_C13, run_C13.
+  assert (Hc : clear_out (c_init c) = c_init c) by (destruct (c_init c); cbn in *; subst; reflexivity).
+  assert (Hi : st_inv (c_kind c) (s_data (c_init c)) (clear_out (c_init c)) (sum_len (c_ops c))).
+  { rewrite Hc. destruct (c_kind c); cbn [st_inv]; auto. exists 0. rewrite ndrop_0. auto. }
+  apply andb_true_iff. split.
+  - rewrite <- Hc at 2. apply run_steps_ok; assumption.
+  - eapply run_twin_ok; [reflexivity|exact Hops|exact Hi].
+Qed.
